@@ -45,7 +45,7 @@ var c14Hosts = []string{"", "a.com", "A.Com", "x.y.org:8080", "*.wild.net", "$DC
 var c14Paths = []string{"/", "/foo", "/Foo/Bar", "/a/b/", "/$DC/x"}
 
 // prefixes with control characters: the tag parser splits on blanks only, so tabs and newlines end up inside the command
-var c14HostilePaths = []string{"/\thttp://10.6.6.6:1/\nroute\tadd\tevil\ty.com/[a", "/a\nroute del good", "/x\ty", "/a\rb", "/q\"uote", "/[unclosed"}
+var c14HostilePaths = []string{"/\thttp://10.6.6.6:1/\nroute\tadd\tevil\ty.com/[a", "/a\nroute del good", "/x\ty", "/a\rb", "/q\"uote", "/[unclosed", "/caf\uFFFD", "/caf\xe9", "/\xff\xfe"}
 var c14OptPool = []string{"strip=/foo", "prepend=/p", "host=dst", "host=name.test", "tlsskipverify=true", "allow=ip:10.0.0.0/8", "deny=ip:1.2.3.4", "auth=basic", "register=alias", "pxyproto=true", "unknownopt=1", "flagonly"}
 var c14Weights = []string{"0.5", "1", "0", "0.25", "2", "-1", "abc", "Inf", "NaN", "1e400", "", "1e-5", "0x1p-2", "+0.5", ".5", "1_0"}
 
